@@ -569,11 +569,15 @@ impl CoreApi for Enforcer {
         rm: Arc<RwLock<dyn RoleManager>>,
     ) -> Result<()> {
         self.rm = rm;
+        // the role functions must follow the manager even when the rebuild
+        // below fails: otherwise decisions keep consulting the old manager
+        // while links are maintained in the new one
+        self.register_g_functions()?;
         if self.auto_build_role_links {
             self.build_role_links()?;
         }
 
-        self.register_g_functions()
+        Ok(())
     }
 
     async fn set_model<M: TryIntoModel>(&mut self, m: M) -> Result<()> {
